@@ -73,9 +73,40 @@ def matrix(e, name, n, m):
     return a
 
 
-def array(e, name, shape, kind="real"):
-    """uninterpreted array (arbitrary contents)"""
-    return values.fresh_array(name, shape, kind)
+def array(e, name, shape, kind="real", constraint=None):
+    """uninterpreted array (arbitrary contents).  constraint(elem) -> bool term states `forall idx. P(a[idx])`:
+    the instance for every index that is ever read is added to the path condition."""
+    a = values.fresh_array(name, shape, kind)
+    if constraint is None:
+        return a
+    inner = a._fn
+
+    def fn(idx):
+        el = inner(idx)
+        fact = constraint(el)
+        eng = engine.cur()
+        if not isinstance(fact, bool) and not any(fact.get_id() == c.get_id() for c in eng.pc):
+            eng.pc.append(fact)
+        return el
+    a._fn = fn
+    return a
+
+
+class AbstractOp:
+    """uninterpreted array -> array operator (e.g. an arbitrary nonlinear term): only congruence is known"""
+
+    def __init__(self, name):
+        self.name = name
+
+    def __call__(self, u):
+        from . import ops
+        from .smt import CX
+        U = values.const_arr(u)
+        if U.kind == "complex":
+            gre, gim = ops.opaque_apply(self.name + "re", U), ops.opaque_apply(self.name + "im", U)
+            return SArr(U.shape, lambda idx: CX(gre(idx), gim(idx)), "complex")
+        g = ops.opaque_apply(self.name, U)
+        return SArr(U.shape, lambda idx: g(idx), "real")
 
 
 def wshape(D, N):
